@@ -23,4 +23,21 @@ KERNELS = {
         dict(name='flat_cmp', impl=r'impl<O, S> ScalarFunction for FlatComparison<O, S>'),
         dict(name='dec_cmp', impl=r'impl<O, D> ScalarFunction for DecimalComparison<O, D>'),
     ],
+    'boolean': [
+        dict(name='and1', impl=r'impl ScalarFunction for And\b', nth=0),
+        dict(name='and2', impl=r'impl ScalarFunction for And\b', nth=1),
+        dict(name='andn', impl=r'impl ScalarFunction for And\b', nth=2),
+        dict(name='or1', impl=r'impl ScalarFunction for Or\b', nth=0),
+        dict(name='or2', impl=r'impl ScalarFunction for Or\b', nth=1),
+        dict(name='orn', impl=r'impl ScalarFunction for Or\b', nth=2),
+    ],
+    'negate': [
+        dict(name='negate', impl=r'impl<S> ScalarFunction for Negate<S>'),
+        dict(name='not', impl=r'impl ScalarFunction for Not\b'),
+    ],
+    'to_primitive': [
+        dict(name='prim2prim', impl=r'impl<S1, S2> CastFunction for PrimToPrim<S1, S2>', fn='cast', captures='error_state: &mut CastErrorState'),
+        dict(name='dec2float', impl=r'impl<D, S> CastFunction for DecimalToFloat<D, S>', fn='cast',
+             captures='state: &<DecimalToFloat<D, S> as CastFunction>::State, error_state: &mut CastErrorState'),
+    ],
 }
